@@ -159,9 +159,17 @@ def worker_main(prop, cases_path, out_path, deadline):
             res = mod.run_case(case)
         except Inconclusive as e:
             res = inconclusive(str(e))
-        except Exception:
-            # an exception escaping run_case is a harness error (violations are returned, not raised)
-            res = inconclusive('harness exception: ' + traceback.format_exc()[-2000:])
+        except Exception as e:
+            # An exception that travelled through the subject's code on an input the harness considers valid is
+            # an observed failure of the API (violation); one raised by the harness alone is a machinery error.
+            frames = traceback.extract_tb(e.__traceback__)
+            inside = [f for f in frames if os.path.realpath(f.filename).startswith(os.path.realpath(REPO_DIR) + os.sep)]
+            if inside:
+                f = inside[-1]
+                res = violated(f'subject_raised:{type(e).__name__}@{os.path.basename(f.filename)}:{f.name}',
+                               dict(exception=repr(e)[:300], traceback=traceback.format_exc()[-1500:]))
+            else:
+                res = inconclusive('harness exception: ' + traceback.format_exc()[-2000:])
         res['i'] = i
         res['t'] = round(time.time() - t0, 3)
         emit(res)
